@@ -597,13 +597,19 @@ func (g *commonGen) template(w *World, name string, b int) []Step {
 				ta = i
 			}
 		}
-		if ta < 0 || c.EmailAuth2FA || len(w.Browsers) < 2 {
+		if ta < 0 || len(w.Browsers) < 2 {
 			return g.template(w, "enroll_totp", b)
 		}
 		ob := (b + 1) % len(w.Browsers)
+		// (the owner's own login comes first: its steps must not stand between
+		// the other browser's password step and code step)
 		out := []Step{{Kind: "drop_session", B: b}, {Kind: "drop_session", B: ob},
-			{Kind: "login", B: b, A: ta, Sec: pw(ta)},
-			{Kind: "login", B: ob, A: ta, Sec: pw(ta)}, {Kind: "totp_validate", B: ob, A: ta, Sec: &SecretRef{Kind: "totp", A: ta}}}
+			{Kind: "login", B: ob, A: ta, Sec: pw(ta)}, {Kind: "totp_validate", B: ob, A: ta, Sec: &SecretRef{Kind: "totp", A: ta}},
+			{Kind: "login", B: b, A: ta, Sec: pw(ta)}}
+		if c.EmailAuth2FA {
+			out = append(out, Step{Kind: "everify_start", B: ob, A: ta, Str: map[string]string{"kind": "totp"}},
+				Step{Kind: "everify_end", B: ob, A: ta, Sec: &SecretRef{Kind: "everify", A: ta, Idx: -1}, Str: map[string]string{"kind": "totp"}})
+		}
 		if c.hasSetup("recovery") && g.r.Chance(2, 3) {
 			out = append(out, Step{Kind: "recovery_regen", B: ob, A: ta})
 		} else {
